@@ -643,16 +643,47 @@ fn scenario(rng: &mut StdRng, sc: usize, out: Box<dyn std::io::Write>, kv: &Hash
                 msg.extend_from_slice(&blk);
                 (Proto::Sync, "resealed:SendBlock-extra-fields".into(), msg)
             }
-            96 => {
+            96..=97 => {
                 // well-formed filter-protocol messages with EMPTY vectors at the position the client expects
                 let dump = sim.client().peers.verif_dump();
                 let p = env.peers[i].idx;
                 let cps_next = dump.peers.iter().find(|(q, _)| *q == p).map(|(_, d)| (d.check_points.0 as u64 + d.check_points.1.len() as u64 - 1) * interval).unwrap_or(0);
                 let min_f = sim.client().storage.get_min_filtered_block_number();
-                let m: packed::BlockFilterMessage = match rng.gen_range(0..3) {
+                let m: packed::BlockFilterMessage = match rng.gen_range(0..9) {
                     0 => packed::BlockFilterMessage::new_builder().set(packed::BlockFilterCheckPoints::new_builder().start_number(cps_next.pack()).build()).build(),
                     1 => packed::BlockFilterMessage::new_builder().set(packed::BlockFilterHashes::new_builder().start_number((min_f + 1).pack()).build()).build(),
-                    _ => packed::BlockFilterMessage::new_builder().set(packed::BlockFilters::new_builder().start_number((min_f + 1).pack()).build()).build(),
+                    2 => packed::BlockFilterMessage::new_builder().set(packed::BlockFilters::new_builder().start_number((min_f + 1).pack()).build()).build(),
+                    _ => {
+                        // the genuine filters from the expected start on, followed by MORE filters than the client can
+                        // have hashes for, the excess ones being truncated / random bytes (they must never be decoded)
+                        let server = &env.peers[i].server;
+                        let chain = sim.chain.chain_of(server.tip);
+                        let tipn = sim.chain.blocks[server.tip].num;
+                        let mut filters: Vec<packed::Bytes> = Vec::new();
+                        let mut hashes: Vec<packed::Byte32> = Vec::new();
+                        let k = rng.gen_range(0..=3u64);
+                        for n in (min_f + 1)..=(min_f + k).min(tipn) {
+                            filters.push(sim.chain.blocks[chain[n as usize]].filter.clone());
+                            hashes.push(sim.chain.blocks[chain[n as usize]].header.hash());
+                        }
+                        for _ in 0..rng.gen_range(1..=40usize) {
+                            let bad: Vec<u8> = match rng.gen_range(0..3) {
+                                0 => vec![1],                                  // claims one element, no data
+                                1 => vec![0xff; rng.gen_range(1..9)],
+                                _ => (0..rng.gen_range(0..12)).map(|_| rng.gen()).collect(),
+                            };
+                            filters.push(Pack::<packed::Bytes>::pack(&bad[..]));
+                            let mut h = [0u8; 32];
+                            rng.fill(&mut h);
+                            hashes.push(h.pack());
+                        }
+                        let c = packed::BlockFilters::new_builder()
+                            .start_number((min_f + 1).pack())
+                            .block_hashes(hashes.pack())
+                            .filters(packed::BytesVec::new_builder().set(filters).build())
+                            .build();
+                        packed::BlockFilterMessage::new_builder().set(c).build()
+                    }
                 };
                 (Proto::Filter, "resealed:empty-vectors".into(), m.as_slice().to_vec())
             }
